@@ -695,7 +695,11 @@ func resolverDescendsIntoInline(w *World, r *Report, prop string) {
 		if n := w.CallGraph().Nodes[top]; n != nil {
 			for _, e := range n.In {
 				if c := e.Caller.Func; c != nil && w.isSubjectFunc(c) && pkgOfFunc(c) != w.Cmd {
-					roots = append(roots, c)
+					// a caller that is a closure (the body of a range-over-func loop, a callback handed to a walker) stands for the
+					// function it is written in
+					for ; c != nil; c = c.Parent() {
+						roots = append(roots, c)
+					}
 				}
 			}
 		}
